@@ -536,3 +536,35 @@ def f27_shape(p, run_index):
         if not comp or comp[0][0] not in ("DS", "DSF", "DSU"):
             return "b"
     return None
+
+
+def f29_shape(p, impl_events, first_index):
+    """residual shapes of finding F27 (F29): a sub-scenario that stopped ON ITS OWN stays in its parent's _subScenarios
+    when the parent's `_invokeInner` loop does not get to the point where it filters the list:
+    (c) `do A, B` where a later sibling executes `terminate simulation` in the very step an earlier sibling stopped
+        (`yield terminationReason` inside the loop, before `self._subScenarios = newSubs`);
+    (d) a sub-scenario stopped by `terminate` in one of its monitors (after the compose phase of that step) whose
+        ancestors never resume the compose block that runs it (time limit reached in the next step, or the simulation
+        ends in the next step through another sub-scenario).
+    Evidence is taken from the implementation's own log before the first difference: (c) a compose block of a scenario
+    reachable from a later sibling logged mark 91 (= the statement before `terminate simulation`) in the current step;
+    (d) a monitor instantiated by a sub-scenario class logged mark 90 (= the statement before `terminate`)."""
+    marked = sub_classes_with_statements(p)
+    if not marked:
+        return None
+    ev = impl_events[:first_index]
+    last_k = max((i for i, e in enumerate(ev) if e and e[0] == "K"), default=-1)
+    step_ev = ev[last_k + 1:]
+    for sc in p["scenarios"]:
+        for s in walk(sc["compose"] or []):
+            if s[0] in ("DS", "DSF", "DSU") and len(s[1]) >= 2:
+                for j in range(1, len(s[1])):
+                    later = reach(p, [s[1][j]])
+                    if reach(p, s[1][:j]) & marked and any(e[0] == "S" and len(e) == 3 and e[2] == 91 and e[1] in later for e in step_ev):
+                        return "c"
+    for i, sc in enumerate(p["scenarios"]):
+        if i > 0 and reach(p, [i]) & marked:
+            for m in sc.get("monitors", []):
+                if any(e[0] == "M" and len(e) == 3 and e[1] == m and e[2] == 90 for e in ev):
+                    return "d"
+    return None
